@@ -90,55 +90,62 @@ def w2_case(res, case, verbose=False):
     n, init, tt, fin = W.stim_for(nv)
     delays = wsim.delay_array(len(c.lines), case['plan'])
     sim = W.make_sim(c, delays, n, caps=case['caps'])
-    W.assign(sim, ipos + spos, init, tt, fin)
-    sim.s_to_c()
-    ini_bits = [int(sum(int(v) << p for p, v in enumerate(x))) for x in init]
-    fin_bits = [int(sum(int(v) << p for p, v in enumerate(x))) for x in fin]
-    if case['stim'] == 'multi':
-        # multi-transition waveforms written into the input slots (capacity 4: up to 3 entries + terminator)
-        wf = wsim.waveforms(3, max_entries=3)
-        for k, pos in enumerate(ipos + spos):
-            loc = sim.c_locs[sim.ppi_offset + pos]
-            if loc < 0: continue
-            ib = fb = 0
-            for lane in range(n):
-                w = wf[(lane // (len(wf) ** k)) % len(wf)] if k < 3 else wf[lane % len(wf)]
-                e = wsim.encode(w[0], [t + 0.5 * k for t in w[1]])
-                sim.c[loc:loc + 4, lane] = TMAX
-                sim.c[loc:loc + len(e), lane] = e
-                ib |= w[0] << lane; fb |= (w[0] ^ (len(w[1]) & 1)) << lane
-            ini_bits[k], fin_bits[k] = ib, fb
-    sim.c_prop()
-    sim.c_to_s()
-    mask = (1 << n) - 1
-    snodes = c.s_nodes
-    src_nodes = [snodes[p].index for p in ipos + spos]
-    gate = lambda kind, pins: ref.gate2(kind, pins, mask)
-    vi = ref.graph_eval(c, dict(zip(src_nodes, ini_bits)), gate, lambda v: ~v & mask, 0)
-    vf = ref.graph_eval(c, dict(zip(src_nodes, fin_bits)), gate, lambda v: ~v & mask, 0)
     ntrans = 0
-    for l in c.lines:
-        loc, cap = int(sim.c_locs[l.index]), int(sim.c_caps[l.index])
-        for lane in range(n):
-            ini, times, term, ovl = wsim.decode(sim.c, loc, cap, lane)
-            ntrans += len(times)
-            if ovl: res.count('w2_overflow_lines')
-            ei, ef = (vi[l.index] >> lane) & 1, (vf[l.index] >> lane) & 1
-            if ini != ei:
-                res.violation(key + f'/line{l.index}-initial', case, f'line {l.index} lane {lane}: starts at {ini}, reference {ei} {nl}'); break
-            if (ini ^ (len(times) & 1)) != ef:
-                res.violation(key + f'/line{l.index}-final', case, f'line {l.index} lane {lane}: ends at {ini ^ (len(times) & 1)} after {len(times)} transitions, reference {ef} {nl}'); break
-            if not term:
-                res.violation(key + f'/line{l.index}-terminator', case, f'line {l.index} lane {lane}: no terminator inside capacity {cap} {nl}'); break
-    for name, pos, node in [(f'out{j}', opos[j], b.out_nodes[j]) for j in range(len(nl.outs))] + [(f'st{k}', spos[k], b.st_nodes[k]) for k in range(len(nl.states))]:
-        li = node.ins[0].index
-        s3 = int(sum((1 << p) for p in range(n) if sim.s[3, pos, p] != 0))
-        s6 = int(sum((1 << p) for p in range(n) if sim.s[6, pos, p] != 0))
-        if s3 != vi[li]: res.violation(key + f'/{name}-s3', case, f'{name}: captured initial values {s3:b} reference {vi[li]:b} {nl}')
-        if s6 != vf[li]: res.violation(key + f'/{name}-s6', case, f'{name}: captured final values {s6:b} reference {vf[li]:b} {nl}')
+    base = (init, tt, fin)
+    # round 0: fresh simulator; round 1: the SAME simulator object gets a second, different stimulus (lanes rotated)
+    for rnd in ((0, 1) if case['stim'] == 'rf' else (0,)):
+        perm = np.roll(np.arange(n), 5 * rnd)
+        init, tt, fin = ([x[perm] for x in base[0]], [x[perm] for x in base[1]], [x[perm] for x in base[2]])
+        rkey = key + (f'/round{rnd}' if rnd else '')
+        W.assign(sim, ipos + spos, init, tt, fin)
+        sim.s_to_c()
+        ini_bits = [int(sum(int(v) << p for p, v in enumerate(x))) for x in init]
+        fin_bits = [int(sum(int(v) << p for p, v in enumerate(x))) for x in fin]
+        if case['stim'] == 'multi':
+            # multi-transition waveforms written into the input slots (capacity 4: up to 3 entries + terminator)
+            wf = wsim.waveforms(3, max_entries=3)
+            for k, pos in enumerate(ipos + spos):
+                loc = sim.c_locs[sim.ppi_offset + pos]
+                if loc < 0: continue
+                ib = fb = 0
+                for lane in range(n):
+                    w = wf[(lane // (len(wf) ** k)) % len(wf)] if k < 3 else wf[lane % len(wf)]
+                    e = wsim.encode(w[0], [t + 0.5 * k for t in w[1]])
+                    sim.c[loc:loc + 4, lane] = TMAX
+                    sim.c[loc:loc + len(e), lane] = e
+                    ib |= w[0] << lane; fb |= (w[0] ^ (len(w[1]) & 1)) << lane
+                ini_bits[k], fin_bits[k] = ib, fb
+        sim.c_prop()
+        sim.c_to_s()
+        mask = (1 << n) - 1
+        snodes = c.s_nodes
+        src_nodes = [snodes[p].index for p in ipos + spos]
+        gate = lambda kind, pins: ref.gate2(kind, pins, mask)
+        vi = ref.graph_eval(c, dict(zip(src_nodes, ini_bits)), gate, lambda v: ~v & mask, 0)
+        vf = ref.graph_eval(c, dict(zip(src_nodes, fin_bits)), gate, lambda v: ~v & mask, 0)
+        for l in c.lines:
+            loc, cap = int(sim.c_locs[l.index]), int(sim.c_caps[l.index])
+            for lane in range(n):
+                ini, times, term, ovl = wsim.decode(sim.c, loc, cap, lane)
+                ntrans += len(times)
+                if ovl: res.count('w2_overflow_lines')
+                ei, ef = (vi[l.index] >> lane) & 1, (vf[l.index] >> lane) & 1
+                if ini != ei:
+                    res.violation(rkey + f'/line{l.index}-initial', case, f'line {l.index} lane {lane}: starts at {ini}, reference {ei} {nl}'); break
+                if (ini ^ (len(times) & 1)) != ef:
+                    res.violation(rkey + f'/line{l.index}-final', case, f'line {l.index} lane {lane}: ends at {ini ^ (len(times) & 1)} after {len(times)} transitions, reference {ef} {nl}'); break
+                if not term:
+                    res.violation(rkey + f'/line{l.index}-terminator', case, f'line {l.index} lane {lane}: no terminator inside capacity {cap} {nl}'); break
+        for name, pos, node in [(f'out{j}', opos[j], b.out_nodes[j]) for j in range(len(nl.outs))] + [(f'st{k}', spos[k], b.st_nodes[k]) for k in range(len(nl.states))]:
+            li = node.ins[0].index
+            s3 = int(sum((1 << p) for p in range(n) if sim.s[3, pos, p] != 0))
+            s6 = int(sum((1 << p) for p in range(n) if sim.s[6, pos, p] != 0))
+            if s3 != vi[li]: res.violation(rkey + f'/{name}-s3', case, f'{name}: captured initial values {s3:b} reference {vi[li]:b} {nl}')
+            if s6 != vf[li]: res.violation(rkey + f'/{name}-s6', case, f'{name}: captured final values {s6:b} reference {vf[li]:b} {nl}')
     if ntrans: res.sig((case['nl'], case['style'], tuple(case['plan']), case['capname'], case['stim'], ntrans))
     res.count('w2_cases')
     if case['stim'] == 'multi': res.count('w2_multi')
+    else: res.count('w2_second_round')
 
 
 def run_w2(res, task):
@@ -175,7 +182,7 @@ def replay(case):
 
 
 def finish(agg, tier):
-    need = ['w1_overflows', 'w2_overflow_lines', 'w2_cases', 'w2_multi']
+    need = ['w1_overflows', 'w2_overflow_lines', 'w2_cases', 'w2_multi', 'w2_second_round']
     missing = [k for k in need if not agg.counters.get(k)]
     if missing: raise common.HarnessError(f'vacuity guard: {missing} zero')
     return {}
